@@ -26,6 +26,13 @@ pub fn run(args: &Args) -> Report {
         deadline: Instant::now() + Duration::from_secs(args.tier.pick(50, 1500)),
         seed: args.seed,
     };
+    if args.replay.as_ref().map_or(false, |rp| rp["replay"]["harness"] == "c03-handover") {
+        let ho = super::c08::epoch_handover(args.seed);
+        if let Some(v) = ho.violation {
+            rep.violations.push(Violation { key: "state_slot_overwritten_by_next_epoch".into(), what: v, replay: json!({"harness":"c03-handover"}) });
+        }
+        return rep;
+    }
     if let Some(rp) = &args.replay {
         let path: Vec<String> = rp["replay"]["path"].as_array().map(|a| a.iter().filter_map(|x| x.as_str().map(|s| s.to_string())).collect()).unwrap_or_default();
         match l1::replay_path(&w, r, &cfg, &path) {
@@ -68,6 +75,16 @@ pub fn run(args: &Args) -> Report {
     rep.coverage["genesis_first_block"] = json!({"wide_pass": 3, "minimal_alphabet_pass": 0, "persistence_pass": 0});
     rep.coverage["persistence_pass"] = l1::coverage_json(&res_p, &pers_cfg, "persistence-focused alphabet (proposals and new-views from the leader, the timer), every crash point x {applied, lost, write error}, restarts");
     rep.coverage["persistence_pass"]["alphabet_size"] = json!(pa_len);
+    // the single replica-state slot across an epoch hand-over
+    let ho = super::c08::epoch_handover(args.seed);
+    match &ho.violation {
+        Some(v) if v.starts_with("MACHINERY") => rep.machinery_errors.push(format!("epoch hand-over: {v}")),
+        Some(v) => rep.violations.push(Violation { key: "state_slot_overwritten_by_next_epoch".into(), what: format!("[epoch_handover] rotating schedule (epoch 1 starts at block 3, same committee), blocks 0-1 durable, committee of epoch 1 known, bft::Config::run started for epoch 1: {v}"), replay: json!({"harness":"c03-handover"}) }),
+        None if !ho.woke_up_after_the_boundary => rep.machinery_errors.push("vacuous: the consensus instance of epoch 1 never woke up after the last block of epoch 0 was persisted".into()),
+        None => {}
+    }
+    rep.coverage["epoch_handover"] = json!({"clock_steps_while_dormant": ho.steps, "woke_up_after_the_boundary": ho.woke_up_after_the_boundary,
+        "rule": "the real bft::Config::run of epoch 1 over the real EngineManager with a rotating schedule, started while the last block of epoch 0 is not yet persisted; 12 steps of 3 s on the manual clock (view timeout 2 s): nothing may be sent or written to the node's only replica-state slot; then the block is persisted and the instance must wake up; one deterministic run (default schedule)"});
     rep.assumptions = vec![
         "set_state is atomic (no torn writes inside one call); acknowledged writes are durable".into(),
         "views above the alphabet's bound and payload alphabets larger than the tier's are outside the scope".into(),
